@@ -234,7 +234,8 @@ _SAFE_BUILTINS = {
 import io as _io_mod
 import types as _types
 # only pure, side-effect free names of external modules are visible to interpreted code
-_EXT_MODULES = {"re": re, "string": string,
+import functools as _functools_mod
+_EXT_MODULES = {"re": re, "string": string, "functools": _types.SimpleNamespace(reduce=_functools_mod.reduce),
                 "io": _types.SimpleNamespace(DEFAULT_BUFFER_SIZE=_io_mod.DEFAULT_BUFFER_SIZE, SEEK_SET=0, SEEK_CUR=1, SEEK_END=2)}
 
 
@@ -332,6 +333,8 @@ class Interp:
             return env.lookup(name)
         except KeyError:
             pass
+        if frame.func is None and frame.cls is not None and name in frame.cls.attrs:
+            return self._class_attr(frame.cls, name)      # class body: earlier class-level names are in scope
         try:
             return self._module_env_lookup(frame.module, name, frame)
         except Incomplete:
@@ -446,11 +449,29 @@ class Interp:
             return r
         if f is bool and len(args) == 1 and not kwargs:
             return self.truth(args[0], node)
+        if f is _functools_mod.reduce and not kwargs and len(args) in (2, 3):
+            it = iter(self.iterate(args[1], node))
+            if len(args) == 3:
+                acc = args[2]
+            else:
+                try:
+                    acc = next(it)
+                except StopIteration:
+                    raise PyRaise(TypeError, ("reduce() of empty iterable with no initial value",), node)
+            for x in it:
+                self._tick(node)
+                acc = self._call_value(args[0], [acc, x], {}, node)
+            return acc
         # callbacks from the interpreted program given to stdlib functions
         def conv(a):
             if isinstance(a, (Closure, FuncRef)):
                 return lambda *xs: self._call_value(a, list(xs), {}, node)
             return a
+        # "...{}...".format(x) / sep.join(xs) with library objects: str() is applied through the interpreted __str__
+        owner = getattr(f, "__self__", None)
+        if isinstance(owner, str) and getattr(f, "__name__", "") == "format":
+            args = [self.to_str(a, node) if isinstance(a, (Obj, Native)) else a for a in args]
+            kwargs = {k: (self.to_str(v, node) if isinstance(v, (Obj, Native)) else v) for k, v in kwargs.items()}
         for a in list(args) + list(kwargs.values()):
             if isinstance(a, (Obj, Native, ClassRef, Lazy)):
                 if f in (tuple, list, set, frozenset, dict) or \
@@ -1048,6 +1069,8 @@ class Interp:
             self._comp(e.generators, 0, env, frame, lambda en: out.append(self.eval(e.elt, en, frame)))
             if t is ast.SetComp:
                 return _OrderedSet(out)
+            if t is ast.GeneratorExp:
+                return iter(out)       # evaluated eagerly, but an iterator like the real thing (next(), single pass)
             return out
         if t is ast.DictComp:
             d = {}
